@@ -66,7 +66,7 @@ Definition expired (c : corr) (m : smsg) : corr * option smsg :=
         let ss' := set_status ss sseq STATUS_EXPIRED in
         let c2 := with_stat c1 (dset (c_stat c1) ref ss') in
         let '(c3, code) := cumulated c2 ref ss' in
-        if code =? STATUS_EXPIRED then (c3, Some (ss_orig ss')) else (c3, None)
+        if (code =? STATUS_EXPIRED) || (code =? STATUS_FAILED) then (c3, Some (ss_orig ss')) else (c3, None)
       | None => (c1, None)
       end
     | None => (c, Some m)
@@ -104,10 +104,13 @@ Definition put_store (c : corr) (now : Q) (m : smsg) (eid : Z) : corr :=
     let '(ref, sseq, total) := sm_sar m in
     if 0 <? total then
       let c2 := with_seg c1 (dset (c_seg c1) (sm_seq m) (ref, sseq)) in
-      let ss := match dget ref (c_stat c2) with
+      let fresh := {| ss_status := map (fun i => (Z.of_nat i, STATUS_SENDING)) (seq 1 (Z.to_nat total));
+                      ss_orig := m; ss_last_resp := None; ss_last_rcpt := None |} in
+      (* the first segment of a message starts a new status: the 8-bit reference may be re-used *)
+      let ss := match (if 1 <? sseq then dget ref (c_stat c2) else None) with
                 | Some ss => ss
-                | None => {| ss_status := map (fun i => (Z.of_nat i, STATUS_SENDING)) (seq 1 (Z.to_nat total));
-                             ss_orig := m; ss_last_resp := None; ss_last_rcpt := None |}
+                | None => fresh (* {| ss_status := map (fun i => (Z.of_nat i, STATUS_SENDING)) (seq 1 (Z.to_nat total));
+                             ss_orig := m; ss_last_resp := None; ss_last_rcpt := None |} *)
                 end in
       with_stat c2 (dset (c_stat c2) ref (set_status ss sseq STATUS_SENDING))
     else c1
